@@ -574,6 +574,8 @@ class Ops:
         return SV(a.sort, z3.SetIntersect(a.t, bb.t))
     if name == 'Add' and isinstance(a, SV) and getattr(a.sort, 'add_hook', None):
       return a.sort.add_hook(self, a, b)
+    if name == 'Div' and isinstance(a, SV) and getattr(a.sort, 'div_hook', None):
+      return a.sort.div_hook(self, a, b)
     if name == 'Mult' and isinstance(a, PyTuple) and isinstance(b, int):
       return PyTuple(tuple(a) * b)
     if name == 'Mult' and isinstance(a, SV) and isinstance(a.sort, SeqOf):
